@@ -85,6 +85,11 @@ THEOREMS = [
     "BeyondVerif.C16.propagate_stable_run",
     "BeyondVerif.C16.n_newProp",
     "BeyondVerif.C16.n_copy",
+    "BeyondVerif.C16.readMemo_eq_current_partial",
+    "BeyondVerif.C16.readMemo_idempotent",
+    "BeyondVerif.C16.copy_read_current",
+    "BeyondVerif.C16.readFixed_after_write",
+    "BeyondVerif.C16W.memo_stale_after_write",
 ]
 LEVEL_TEXT = ("Lean theorems over R about the evolution and acceleration matrices translated from cw.py on every run: the propagated state has, "
               "component by component, the derivative prescribed by Hill's equations with constant thrust (HasDerivAt, all t, all n != 0), "
@@ -122,7 +127,9 @@ ASSUMPTIONS = ["the gravitational parameter of a centre (Center.body.mu) does no
 NOT_COVERED = ["second-order agreement with the difference of two Keplerian orbits: the theorem relAcc_linearisation shows that Hill's right-hand side is the directional derivative, in every "
                "direction, of the exact relative two-body acceleration at the target (the target being an equilibrium, relAcc_zero); the Frechet form with an explicit O(sep^2) remainder and the passage "
                "from the vector field to its solutions are not formalised - oracle second-order-agreement (real propagator vs RK4 integration of the exact relative dynamics, fitted exponent >= 1.8)"]
-OPEN = ["uniqueness of the piecewise solution of Hill's equations (so that hillSol is THE solution) is not formalised",
+OPEN = ["current code: the mean motion is memoised and not invalidated by writes of sma / frame (open finding C16-mean-motion-memo-stale-after-write): the memoised read is the current mean motion only "
+        "when the memo is empty or was filled with the current values (readMemo_eq_current_partial; counter-witness memo_stale_after_write); the World theorems are about propagators whose sma / frame are not reassigned",
+        "uniqueness of the piecewise solution of Hill's equations (so that hillSol is THE solution) is not formalised",
         "current code: state_solves_hill_piecewise_thrust holds only under NoCut / Clear (open findings C16-return-inside-burn-drops-later-maneuvers, C16-backward-ignores-past-maneuvers); "
         "the unconditional theorem is proved for the sequencing of proposed_fixes/C16-maneuver-superposition.diff (cwPropagateFixed)"]
 RULE = ("correspondence: random (n from radii LEO..GEO, |t| <= 2 periods, relative states up to km and m/s, 0-5 maneuvers, both orientations) through "
@@ -414,13 +421,19 @@ def translate_mean_motion():
     tree = ast.parse(open(CW_PY).read())
     fn = py2lean.find_function(tree, "ClohessyWiltshire.n")
     assigns = [x for x in ast.walk(fn) if isinstance(x, ast.Assign) and len(x.targets) == 1 and ast.unparse(x.targets[0]) == "self._n"]
-    if len(assigns) != 1:
-        raise U("ClohessyWiltshire.n: the assignment of self._n not found")
     rets = [x for x in ast.walk(fn) if isinstance(x, ast.Return)]
-    if len(rets) != 1 or ast.unparse(rets[0].value) != "self._n":
-        raise U("ClohessyWiltshire.n: does not return self._n")
+    if len(rets) != 1:
+        raise U("ClohessyWiltshire.n: not a single return")
+    if len(assigns) == 1 and ast.unparse(rets[0].value) == "self._n":
+        value = assigns[0].value            # memoised form
+        memoised = True
+    elif not assigns and not any(isinstance(x, ast.Assign) for x in ast.walk(fn)):
+        value = rets[0].value               # memo-free form (proposed_fixes/C16-mean-motion-memo.diff)
+        memoised = False
+    else:
+        raise U("ClohessyWiltshire.n: neither `self._n = <expr>; return self._n` nor `return <expr>`")
     mu_names = {"self.frame.center.body." + a: "mu" for a in ("mu", "\u00b5", "\u03bc")}
-    expr = py2lean.Tr(consts=dict(mu_names, **{"self.sma": "sma"})).expr(assigns[0].value)
+    expr = py2lean.Tr(consts=dict(mu_names, **{"self.sma": "sma"})).expr(value)
     init = py2lean.find_function(tree, "ClohessyWiltshire.__init__")
     if [a.arg for a in init.args.args] != ["self", "sma", "frame"] or ast.unparse(init.args.defaults[0]) != "'Hill'":
         raise U("ClohessyWiltshire.__init__: signature changed")
@@ -441,6 +454,9 @@ def translate_mean_motion():
     return f"""/-- `ClohessyWiltshire.n`: the value the memo `_n` is filled with; `mu` = `self.frame.center.body.mu`, `sma` = `self.sma` -/
 def meanMotionSrc (mu sma : R) : R :=
   {expr}
+
+/-- does `ClohessyWiltshire.n` keep its first value in `self._n` (`if not hasattr(self, "_n"): self._n = …; return self._n`) -/
+def nMemoised : Bool := {'true' if memoised else 'false'}
 """
 
 
@@ -632,6 +648,7 @@ def correspondence(ctx):
         meta.append(("fixed-sequencing-reference", list(map(float, ref)), 10 * sp, 10 * (sp * n + sv), {"sma": sma, "t0": t0r, "t": tr, "x": x, "mans": mans}))
         out.count(key=reqs[-1], kind="fixed-sequencing-reference", direction="backward" if tr < t0r else "forward", shape=shape(mans))
     world_histories(out, rng, ctx.n(150, 3000))
+    memo_histories(out, rng, ctx.n(100, 2000))
     helper_formulas(out, rng, ctx.n(40, 400))
     helper_translated(out, rng, ctx.n(40, 400))
     replies = core.Driver().run(reqs)
@@ -855,6 +872,51 @@ def world_histories(out, rng, N):
                 break
 
 
+def memo_histories(out, rng, N):
+    """one real propagator through random sequences of reads of n, in-place writes of sma / frame (a frame about another centre) and
+    copy(), against the model of the memo `_n` (Model/CWFrames `Memo`: filled at the first read, untouched by the writes, absent from a
+    copy — or no memo at all when the source computes n at every read)"""
+    from beyond.propagators.cw import ClohessyWiltshire
+    from beyond.frames.frames import HillFrame
+    reqs, meta = [], []
+    for _ in range(N):
+        cname = rng.choice(CENTRE_NAMES)
+        ori = rng.choice(["QSW", "TNW"])
+        sma = gen_sma(rng, cname)
+        prop = ClohessyWiltshire(sma, frame=HillFrame(ori, centres()[cname]))
+        toks = ["memo", f2b(centre_mu(cname)), f2b(sma)]
+        hist, real = [], []
+        for _k in range(rng.choice([2, 3, 5, 8])):
+            op = rng.choice(["r", "r", "w-sma", "w-frame", "c"])
+            if op == "r":
+                real.append(float(prop.n))
+                toks.append("r")
+                hist.append(["read"])
+            elif op == "c":
+                prop = prop.copy()
+                toks.append("c")
+                hist.append(["copy"])
+            else:
+                if op == "w-frame":
+                    cname = rng.choice(CENTRE_NAMES)
+                    prop.frame = HillFrame(ori, centres()[cname])
+                sma = gen_sma(rng, cname)
+                prop.sma = sma
+                toks += ["w", f2b(centre_mu(cname)), f2b(sma)]
+                hist.append([op, cname, sma])
+        real.append(float(prop.n))
+        toks.append("r")
+        hist.append(["read"])
+        reqs.append(" ".join(toks))
+        meta.append((hist, real))
+        out.count(key=reqs[-1], kind="memo-history", writes=min(3, sum(1 for h in hist if h[0].startswith("w"))), copies=min(2, sum(1 for h in hist if h[0] == "copy")))
+    for req, (hist, real), rep in zip(reqs, meta, core.Driver().run(reqs)):
+        model = [b2f(t) for t in rep.split()] if rep and rep[0].isdigit() else None
+        if model is None or len(model) != len(real) or not all(abs(a - b) <= 1e-12 * abs(b) for a, b in zip(real, model)):
+            out.fail("cw-memo", "reads of ClohessyWiltshire.n along this history of writes / copies differ from the model of the memo", {"history": hist},
+                     observed=real, expected=model if model is not None else rep)
+
+
 def flat_mans(mans, d0):
     from beyond.orbits.man import ImpulsiveMan
     r = []
@@ -1043,6 +1105,7 @@ def oracle(ctx, widened):
                      {"sma": sma, "t": tq, "x": x, "man": ["c", ts, te, acc, pos]}, observed=list(map(float, d)), expected=list(map(float, rhs)))
     piecewise(out, rng, 600 if (widened or ctx.thorough) else 90)
     foreign_frames(out, rng, 1500 if (widened or ctx.thorough) else 150)
+    write_then_read(out, rng, 600 if (widened or ctx.thorough) else 90)
     second_order(out, rng, 40 if (widened or ctx.thorough) else 6)
     helpers(out, rng, 60 if (widened or ctx.thorough) else 12)
     vbar(out, rng, 40 if (widened or ctx.thorough) else 8)
@@ -1383,6 +1446,62 @@ def own_target_one(out, cname, ori, sma, x, t1, t2, by, where):
                          observed={"n": float(prop.n), "period": per}, expected={"n": n, "period": period})
 
 
+def write_then_read(out, rng, N):
+    """a read after an in-place write returns what a fresh object returns: `prop.sma` / `prop.frame` (plain public attributes) are
+    reassigned before or after the propagator was first used (n read / a propagation); the next propagation must be the solution of
+    Hill's equations for the CURRENT target (reference: independent integration with n from the current values)"""
+    for _ in range(N):
+        cname = rng.choice(CENTRE_NAMES)
+        ori = rng.choice(["QSW", "TNW"])
+        sma = gen_sma(rng, cname)
+        attr = rng.choice(["sma", "frame"])
+        used = rng.choice(["n-read", "propagated", "unused"])
+        cname2 = cname if attr == "sma" else rng.choice([c for c in CENTRE_NAMES if c != cname])
+        sma2 = gen_sma(rng, cname2)
+        n2 = math.sqrt(centre_mu(cname2) / sma2 ** 3)
+        xq = gen_state(rng, n2)
+        x = P6(xq) if ori == "TNW" else xq
+        t0 = q(rng.uniform(-1, 1) * 3000.0)
+        t = q(rng.uniform(-1, 1) * 2 * math.pi / n2)
+        write_then_read_one(out, cname, ori, sma, attr, used, cname2, sma2, x, t0, t)
+
+
+def write_then_read_one(out, cname, ori, sma, attr, used, cname2, sma2, x, t0, t):
+    import numpy as np
+    from beyond.orbits import Orbit
+    from beyond.dates import Date, timedelta
+    from beyond.propagators.cw import ClohessyWiltshire
+    from beyond.frames.frames import HillFrame
+    d0 = Date(2020, 5, 24)
+    hill = HillFrame(orientation=ori, center=centres()[cname])
+    prop = ClohessyWiltshire(sma, frame=hill)
+    orb = Orbit(list(x), d0, "cartesian", hill, prop)
+    if used == "n-read":
+        float(prop.n)
+    elif used == "propagated":
+        orb.propagate(timedelta(seconds=t0))
+    if attr == "sma":
+        prop.sma = sma2
+    else:
+        prop.sma = sma2
+        prop.frame = HillFrame(orientation=ori, center=centres()[cname2])
+    got = np.array(orb.propagate(timedelta(seconds=t)), dtype=float)
+    n2 = math.sqrt(centre_mu(cname2) / sma2 ** 3)
+    xq = [-x[1], x[0], x[2], -x[4], x[3], x[5]] if ori == "TNW" else list(x)
+    ref = hill_flow(n2, t, xq, [0.0, 0.0, 0.0])
+    if ori == "TNW":
+        ref = np.array(P6(list(ref)))
+    sv = max(abs(v) for v in xq[3:]) + 1e-9
+    sp = max(abs(v) for v in xq[:3]) + abs(t) * sv + 1.0
+    tol = np.array([1e-8 * sp + 1e-7] * 3 + [1e-8 * (sp * n2 + sv) + 1e-10] * 3)
+    out.count(key=("write", cname, ori, sma, sma2, t), kind=f"write-{attr}-{used}")
+    if t != 0 and not np.all(np.abs(got - ref) <= tol):
+        fam = "in-place-write-after-first-use" if used != "unused" else "in-place-write-before-first-use"
+        out.fail(fam, f"after `prop.{attr} = ...` the propagation is not the solution of Hill's equations for the current target (what a fresh propagator built with the current values returns)",
+                 {"centre": cname, "ori": ori, "sma": sma, "written": attr, "used": used, "new_centre": cname2, "new_sma": sma2, "x": list(x), "t_first_use": t0, "t": t},
+                 observed=[float(v) for v in got], expected=[float(v) for v in ref])
+
+
 def exact_relative(n, R, s0, T, steps=1500):
     """RK4 integration of the EXACT two-body relative dynamics in the target's rotating QSW frame (target on a circular orbit of radius R,
     mu = n^2 R^3): acceleration = Coriolis (2 n vy, -2 n vx, 0) + relAcc (centrifugal - gravity) — the field whose linearisation at the
@@ -1527,6 +1646,10 @@ def replay(f):
     import numpy as np
     from beyond.dates import timedelta
     fam, inp = f["family"], f["input"]
+    if fam.startswith("in-place-write-") and isinstance(inp, dict) and "written" in inp:
+        out = Outcome()
+        write_then_read_one(out, inp["centre"], inp["ori"], inp["sma"], inp["written"], inp["used"], inp["new_centre"], inp["new_sma"], inp["x"], inp["t_first_use"], inp["t"])
+        return out
     if fam == "own-target-mean-motion" and isinstance(inp, dict) and "other_frame" in inp:
         out = Outcome()
         own_target_one(out, inp["centre"], inp["ori"], inp["sma"], inp["x"], inp["t1"], inp["t2"], tuple(inp["other_frame"]), inp["created"])
